@@ -129,6 +129,20 @@ def check_rrsig_input(ctx, rng, t):
                     got_rel = dns.dnssec._make_rrsig_signature_data((mk(owner).relativize(o), rds_rel), sig, o)
                     if got_rel != got and not any(GR.case_variant_of_origin(v, origin) for v in vals):
                         ctx.violation(f"rrsig-signing-input-differs-when-relativized:{t if t in ('LP', 'CH-A') else '*'}", f"owner={owner!r} origin={origin!r} type={t}", case)
+                    # ... and relative to an origin ABOVE the signer (the signer's name is then relative but not empty)
+                    if len(origin) > 2:
+                        ctx.count("mon.rrsig_input_relative_to_an_origin_above_the_signer")
+                        o2l = tuple(origin[1:])
+                        o2 = mk(o2l)
+                        sw = struct.pack("!HBBIIIH", rds.rdtype, alg, labels, ottl, exp, inc, kt) + RN.to_wire(signer) + b"sig"
+                        sig2 = dns.rdata.from_wire(1, dns.rdatatype.RRSIG, sw, 0, len(sw), o2)
+                        rds2 = dns.rdataset.Rdataset(rds.rdclass, rds.rdtype)
+                        for v in vals:
+                            if GR.build(v) in rds:
+                                rds2.add(GR.build(GZ.norm_val(v, o2l, True)), ttl)
+                        got2 = dns.dnssec._make_rrsig_signature_data((mk(owner).relativize(o2), rds2), sig2, o2)
+                        if got2 != got and not any(GR.case_variant_of_origin(v, o2l) for v in vals) and not sig2.signer.is_absolute():
+                            ctx.violation("rrsig-signing-input-differs-when-relativized:signer-below-the-origin", f"owner={owner!r} signer={signer!r} origin={o2l!r} type={t}", case)
                 except dns.exception.DNSException as e:
                     ctx.violation("rrsig-input-relativized-raised:" + core.exc_sig(e), repr(e), case)
             ctx.seen(("rrsig", t if t in ("LP", "CH-A") else "*", labels - n, owner[0] == b"*"))
